@@ -189,6 +189,9 @@ func c16Final(w *World, tw Step, side int) (Step, string, []string) {
 			st.A = -1
 			st.Str = map[string]string{"pid": ghost}
 		}
+		if site := tw.str("mailfault"); site != "" {
+			st.Fault = &FaultDirective{Site: site, Index: 0, Kind: "err"}
+		}
 		return st, "", []string{acct.PID, ghost}
 	case "c": // failed login: unknown account vs known account with a wrong password
 		if w.DB.rows[ghost] != nil {
@@ -274,6 +277,10 @@ func c16Run(t *testing.T, seed uint64, tier string) *RunResult {
 	}
 	if r.Chance(1, 3) {
 		tw.Str["redir"] = []string{"/after/login", "/welcome?x=1", "relative"}[r.Intn(3)]
+	}
+	if sc == "b" && r.Chance(1, 4) {
+		// the mail system is down while both requests are made
+		tw.Str["mailfault"] = []string{"mail.send", "render.mail"}[r.Intn(2)]
 	}
 	if sc == "a" {
 		// make sure the account is locked: by the operator or by failures
